@@ -470,7 +470,16 @@ for await (const line of rl) {
   keepAlive = [];
   try {
     for (const m of req.modules) {
-      if (req.mode === 'define') reply.results[m.name] = await evalDefine(m.code, req.env || {}, req.protocol || {});
+      if (req.mode === 'syntax') {
+        // parse only (early errors included); nothing is linked or evaluated
+        try {
+          const mod = new vm.SourceTextModule(m.code, { context: vm.createContext({}) });
+          void mod;
+          reply.results[m.name] = { ok: true };
+        } catch (e) {
+          reply.results[m.name] = { ok: false, error: String(e && e.message ? e.message : e) };
+        }
+      } else if (req.mode === 'define') reply.results[m.name] = await evalDefine(m.code, req.env || {}, req.protocol || {});
       else reply.results[m.name] = await evalModule(m.code, req.env || {}, req.protocol || {});
     }
   } catch (e) {
